@@ -47,7 +47,7 @@ var done bool
 func main() {
 	kit.Main(&kit.Check{
 		ID: "C36", Level: "model_checking", SlowIsNotHang: true,
-		Rule:          "part configs: (source, builder, cores 1..16) run natively, dump vs the 1-core dump. part sched: (source, builder) with 2 cores under the controlled scheduler, every interleaving up to the bound, dump vs the 1-core dump. part partition: the builders fed by a source that delivers a fixed order-preserving partition of the feature list from 2 goroutines (the nondeterminism of MemoryFeatureSource reduced to which goroutine gets which feature), dump vs the 1-core dump. part validator: the compact builder's shared Validator driven directly by 2-3 goroutines delivering a partition of a feature list, every interleaving, the features handed back for emission vs the schedule-free rule and vs one goroutine alone (delivered area objects are overwritten after each call, as reusing sources do); non-trivial = execution with at least one scheduling choice; distinct = happens-before keys.",
+		Rule:          "part configs: (source, builder, cores 1..16) run natively, dump vs the 1-core dump. part sched: (source, builder) with 2 cores under the controlled scheduler, every interleaving up to the bound, dump vs the 1-core dump. part partition: the builders fed by a source that delivers a fixed order-preserving partition of the feature list from 2 goroutines (the nondeterminism of MemoryFeatureSource reduced to which goroutine gets which feature), dump vs the 1-core dump. part counts: the compact builder's shared per-namespace counters driven directly by 2-3 goroutines, every interleaving, the counters must equal the number of features counted. part validator: the compact builder's shared Validator driven directly by 2-3 goroutines delivering a partition of a feature list, every interleaving, the features handed back for emission vs the schedule-free rule and vs one goroutine alone (delivered area objects are overwritten after each call, as reusing sources do); non-trivial = execution with at least one scheduling choice; distinct = happens-before keys.",
 		Assumptions:   []string{"code between two synchronisation operations runs atomically; sync/atomic counters are not scheduling points", "map ranges in rewritten packages use one fixed order", "compact scratch buffers reduced to 1 MB by a build-time transform"},
 		QuickDeadline: 250e9, ThoroughDeadline: 1500e9, CaseTimeout: 500e9, Chunk: 1,
 		Build: func(tier string) (kit.Space, string) {
@@ -114,7 +114,59 @@ func main() {
 			if tier == "thorough" {
 				partBasicBound, partCompactBound, partExec = 2, 1, 8000
 			}
-			return kit.FuncSpace{N: int64(len(sc) + nVal + len(parts)), F: func(i int64) kit.Result {
+			// part counts: the builder's shared per-namespace counters
+			cnts := countScenarios(2, 3)
+			if tier == "thorough" {
+				cnts = append(countScenarios(2, 4), countScenarios(3, 3)...)
+			}
+			const cntGroup = 100
+			nCnt := (len(cnts) + cntGroup - 1) / cntGroup
+			// order of the space: cheap parts first (configurations, counters,
+			// validator, partitions), the capped whole-build searches last, so that
+			// a deadline on a loaded machine cuts the least decisive part
+			total := len(sc) + nVal + len(parts) + nCnt
+			nSched := 2 * len(srcs)
+			perm := make([]int64, 0, total)
+			for k := 0; k < len(sc)-nSched; k++ {
+				perm = append(perm, int64(k))
+			}
+			for k := len(sc) + nVal + len(parts); k < total; k++ {
+				perm = append(perm, int64(k))
+			}
+			for k := len(sc); k < len(sc)+nVal+len(parts); k++ {
+				perm = append(perm, int64(k))
+			}
+			for k := len(sc) - nSched; k < len(sc); k++ {
+				perm = append(perm, int64(k))
+			}
+			return kit.FuncSpace{N: int64(total), F: func(i int64) kit.Result {
+				i = perm[i]
+				if i >= int64(len(sc)+nVal+len(parts)) {
+					runtime.GOMAXPROCS(1)
+					var r kit.Result
+					lo := int(i-int64(len(sc)+nVal+len(parts))) * cntGroup
+					for j := lo; j < lo+cntGroup && j < len(cnts); j++ {
+						var r1 kit.Result
+						runCounts(cnts[j], &r1)
+						r.Evals += r1.Evals
+						r.States += r1.States
+						r.Transitions += r1.Transitions
+						r.Distinct += r1.Distinct
+						r.Violations = append(r.Violations, r1.Violations...)
+						if r.Outcomes == nil {
+							r.Outcomes = map[string]int64{}
+						}
+						for k, v := range r1.Outcomes {
+							r.Outcomes["counts:"+k] += v
+						}
+						for k, v := range r1.Counters {
+							r.Count(k, v)
+						}
+					}
+					r.Nontrivial = true
+					r.Key = fmt.Sprintf("counts scenarios %d..", lo)
+					return r
+				}
 				if i >= int64(len(sc)+nVal) {
 					ps := parts[i-int64(len(sc)+nVal)]
 					if ps.kind == "compact" {
@@ -158,7 +210,7 @@ func main() {
 					opts = sched.Options{MaxPreemptions: compactBound, AllDeviations: true, MaxExecutions: maxExec, Horizon: 100000}
 				}
 				return runBuild(s, tier, opts)
-			}}, fmt.Sprintf("%d build scenarios (%d sources x 2 builders: configs with cores 2..16 run natively; sched with 2 cores under the controlled scheduler: basic builds every interleaving with at most %d preemptions, deviations confined to one phase between quiescent points, cap %d executions; compact builds every schedule with at most %d departures from the default schedule, cap %d executions) + %d partition scenarios (every order-preserving split of each source's features over 2 delivering goroutines x 2 builders under the controlled scheduler: basic at most %d preemptions confined to one phase, compact: the default schedule of every partition (one goroutine's list after the other's) and, in the thorough tier, every schedule with at most %d departure from it for sources of up to 6 features, cap %d executions) + %d validator scenarios (every ordered delivery of 2..k of 10 menu features (4 paths: closed ccw, open, missing point, closed cw; 6 areas over them, one over a path never delivered) to 2 goroutines (k<=%d) and 3 goroutines (k<=%d), every interleaving, no bound)", len(sc), len(srcs), basicBound, 20*maxExec, compactBound, maxExec, len(parts), partBasicBound, partCompactBound, partExec, len(vals), 5, map[bool]int{false: 4, true: 5}[tier == "thorough"])
+			}}, fmt.Sprintf("%d build scenarios (%d sources x 2 builders: configs with cores 2..16 run natively; sched with 2 cores under the controlled scheduler: basic builds every interleaving with at most %d preemptions, deviations confined to one phase between quiescent points, cap %d executions; compact builds every schedule with at most %d departures from the default schedule, cap %d executions) + %d partition scenarios (every order-preserving split of each source's features over 2 delivering goroutines x 2 builders under the controlled scheduler: basic at most %d preemptions confined to one phase, compact: the default schedule of every partition (one goroutine's list after the other's) and, in the thorough tier, every schedule with at most %d departure from it for sources of up to 6 features, cap %d executions) + %d counter scenarios (2-3 goroutines counting every partition of 2-3 (thorough 4) features over 2 namespaces x 2 kinds into the builder's shared NamespacedCounts, every interleaving, no bound) + %d validator scenarios (every ordered delivery of 2..k of 10 menu features (4 paths: closed ccw, open, missing point, closed cw; 6 areas over them, one over a path never delivered) to 2 goroutines (k<=%d) and 3 goroutines (k<=%d), every interleaving, no bound)", len(sc), len(srcs), basicBound, 20*maxExec, compactBound, maxExec, len(parts), partBasicBound, partCompactBound, partExec, len(cnts), len(vals), 5, map[bool]int{false: 4, true: 5}[tier == "thorough"])
 		},
 	})
 }
